@@ -164,6 +164,17 @@ def main():
                                             "detail": coq_out[-2500:]})
         if audit:
             ctx.obligation_failures.append({"kind": "audit", "detail": audit})
+        # thorough tier: re-check the compiled closure of the property file with the independent checker
+        coqchk = None
+        if coq_ok and tier == "thorough" and os.environ.get("FQ_NO_COQCHK") != "1":
+            rc, cout, cdt = sh("coqchk -silent -o -Q . FQ FQ.Properties.%s" % pid, cwd=COQ, timeout=7200)
+            m = re.search(r"\* Axioms:(.*?)\n\s*\n\* ", cout, flags=re.S)
+            ax = [a.strip() for a in (m.group(1).strip().split("\n") if m else ["<unparsed>"]) if a.strip()]
+            ax = [] if ax == ["<none>"] else ax
+            coqchk = {"exit": rc, "axioms": ax, "wall_s": round(cdt, 1)}
+            log("coqchk FQ.Properties.%s: exit %d, axioms %s, %.0fs" % (pid, rc, ax or "<none>", cdt))
+            if rc != 0 or set(ax) - set(spec.get("allowed_axioms", [])):
+                ctx.obligation_failures.append({"kind": "coqchk", "detail": cout[-1500:]})
         # 4 driver
         drv_ok, drv_out, dt = build_driver()
         if not drv_ok:
@@ -222,6 +233,7 @@ def main():
                 "trusted_base": TRUSTED_BASE + spec.get("trusted_extra", []),
                 "theorems": thms,
                 "assumptions": assumptions,
+                "coqchk": coqchk,
                 "evaluations": max(ctx.evaluations, 1),
                 "distinct_nontrivial": len(ctx.distinct),
                 "rule": spec.get("rule", ""),
